@@ -130,8 +130,8 @@ func (t tupleVariation) calculateScalar(coords []VarCoord, sharedTuples [][]VarC
 
 	startTuple, endTuple := t.IntermediateTuples[0].Values, t.IntermediateTuples[1].Values
 	hasIntermediate := startTuple != nil
-	if len(peakTuple) < endIdx || hasIntermediate && (len(startTuple) < endIdx || len(endTuple) < endIdx) {
-		return 0. // the tuples of 'gvar' have fewer axes than 'fvar'
+	if len(coords) < endIdx || len(peakTuple) < endIdx || hasIntermediate && (len(startTuple) < endIdx || len(endTuple) < endIdx) {
+		return 0. // the tuples of 'gvar' do not have the axes of 'fvar'
 	}
 
 	var scalar float32 = 1.
